@@ -22,6 +22,7 @@ def main():
     pid = a.id.upper()
     plugin = importlib.import_module("props." + pid.lower())
     rep = vlib.Report(pid, a.tier, seed, level=getattr(plugin, "LEVEL", "proof"))
+    rep.is_replay = bool(a.replay)
     try:
         info = vlib.prepare(getattr(plugin, "HARNESSES", ()), getattr(plugin, "MLS", ("wire",)))
     except vlib.BuildBroken as e:
